@@ -240,6 +240,8 @@ func buildPolicies(st []PolD, li *liveInst) []failsafe.Policy[int] {
 			b = b.OnHedge(func(e failsafe.ExecutionEvent[int]) { log().attempt("Hedge", pos, e.ExecutionAttempt, 0) })
 			ps = append(ps, b.Build())
 			b.WithMaxHedges(p.Hedges+3).OnHedge(func(e failsafe.ExecutionEvent[int]) { log().attempt("Hedge", pos+1000, e.ExecutionAttempt, 0) })
+			// (the builder goes on to build another policy with cancel conditions of its own: the policy built first keeps its own)
+			b.CancelOnResult(123456).CancelIf(func(int, error) bool { return false })
 		case "Fallback":
 			var b fallback.FallbackBuilder[int]
 			// a fallback is never applied to an execution that is already cancelled: such an invocation is logged (aux = 1)
